@@ -355,7 +355,15 @@ func (c *Ctx) templateShape(name string) (shape, result string) {
 	bp := g.Pkg("builder")
 	v, ok := pkgStringVar(bp, name)
 	if !ok {
-		return "", ""
+		// the normal form writes a constant as its value
+		if len(name) < 2 || (name[0] != '`' && name[0] != '"') {
+			return "", ""
+		}
+		u, err := strconv.Unquote(name)
+		if err != nil {
+			return "", ""
+		}
+		v = u
 	}
 	fits := func(n int) bool {
 		args := make([]any, n)
